@@ -2,7 +2,7 @@
    Full-strength statement: C09 (see DESIGN.md section 7) (Cluster/Statements.v). Proved so far: the theorems below; what is
    not yet proved is decided on every run by the lock-step co-simulation (model = implementation on every
    explored schedule) together with the monitors run on the implementation's own observations. *)
-From RaftV Require Import Cluster.Statements Proofs.RVSpec Proofs.AESpec.
+From RaftV Require Import Cluster.Statements Proofs.RVSpec Proofs.AESpec Witness.W_C09_D6.
 Open Scope N_scope.
 
 (* becomeFollower (every term change, every step-down) never touches the commit index, the applied index, the
@@ -10,3 +10,10 @@ Open Scope N_scope.
 Theorem C09_step_down_frame : forall now n l t, vol (become_follower now n l t) = vol n.
 Proof. exact vol_become_follower. Qed.
 Print Assumptions C09_step_down_frame.
+
+(* The state-machine-safety part of C09 at full strength (Statements.C09_statement: every schedule, membership
+   requests included) is FALSE of the faithful model, and of the code: open finding D6.  The witness schedule is
+   replayed on the real nodes on every run (corpus/D6_two_disjoint_quorums.script). *)
+Theorem C09_state_machine_safety_refuted : ~ C09_statement.
+Proof. exact C09_refuted_by_D6. Qed.
+Print Assumptions C09_state_machine_safety_refuted.
